@@ -1,16 +1,24 @@
 #!/bin/bash
 # usage: tools/refactor_matrix.sh [dir ...]  — replay behaviour-preserving refactorings (refactors/*/patch.diff, written by
 # sub-agents that saw only the repository; each passed the whole suite) against every check; every check must stay silent.
+# RFM_JOBS (default 4) patches are replayed at a time, each in its own scratch copy.
 V="$(cd "$(dirname "$0")/.." && pwd)"
 [ $# -gt 0 ] || set -- "$V"/refactors/*/
-S="$(mktemp -d /tmp/rfm.XXXXXX)"; mkdir -p "$S/verif"; cp "$V/known_findings.txt" "$S/verif/"; cp "$V/bin/hclcheck" "$S/hclcheck"  # a private copy: the binary may be rebuilt meanwhile
-bad=0
-for d in "$@"; do d="$(readlink -f "$d")"
-  id="$(basename "$d")"
-  rm -rf "$S/repo"; rsync -a --exclude .git /repo/ "$S/repo/"
-  if ! (cd "$S/repo" && patch -p1 -s --no-backup-if-mismatch < "$d/patch.diff" >/dev/null 2>&1); then echo "$id  DOES-NOT-APPLY"; continue; fi
-  out="$(GOPROXY=off GOWORK=off "$S/hclcheck" -property all -tier quick -repo "$S/repo" -verif "$S/verif" 2>&1)"
-  if [ $? -eq 0 ]; then echo "$id  silent"; else bad=$((bad+1)); echo "$id  ALARM"; echo "$out" | grep -v "KNOWN-FINDING\|^C[0-9][0-9] quick\|^VIOLATION" | sed "s#$S/##g; s/^/      /" | cut -c1-400; fi
+S="$(mktemp -d /tmp/rfm.XXXXXX)"; mkdir -p "$S/verif"; cp "$V/known_findings.txt" "$S/verif/"; cp "${HCLCHECK_BIN:-$V/bin/hclcheck}" "$S/hclcheck"  # a private copy: the binary may be rebuilt meanwhile
+one() { d="$(readlink -f "$1")"
+  id="$(basename "$d")"; R="$S/$id"
+  mkdir -p "$R/verif"; cp "$S/verif/known_findings.txt" "$R/verif/"; rsync -a --exclude .git /repo/ "$R/repo/"
+  if ! (cd "$R/repo" && patch -p1 -s --no-backup-if-mismatch < "$d/patch.diff" >/dev/null 2>&1); then echo "$id  DOES-NOT-APPLY"; rm -rf "$R"; return; fi
+  out="$(GOPROXY=off GOWORK=off "$S/hclcheck" -property all -tier quick -repo "$R/repo" -verif "$R/verif" 2>&1)"
+  if [ $? -eq 0 ]; then echo "$id  silent"; else { echo "$id  ALARM"; echo "$out" | grep -v "KNOWN-FINDING\|^C[0-9][0-9] quick\|^VIOLATION" | sed "s#$R/##g; s/^/      /" | cut -c1-400; } ; fi
+  rm -rf "$R"
+}
+for d in "$@"; do
+  one "$d" > "$S/out.$(basename "$(readlink -f "$d")")" 2>&1 &
+  while [ "$(jobs -r | wc -l)" -ge "${RFM_JOBS:-4}" ]; do sleep 0.5; done
 done
+wait
+cat "$S"/out.* 
+bad=$(cat "$S"/out.* | grep -c "  ALARM$")
 rm -rf "$S"
 echo "$bad alarms"
